@@ -1,7 +1,7 @@
 //@ inject: src/dap/transport.rs
 //@ anchor: src/dap/transport.rs :: impl<W: Write + Send, R: Read + Send> DapTransport for Transport<W, R> / fn read_message
 //@ fragment: HDR :: src/dap/transport.rs :: impl<W: Write + Send, R: Read + Send> DapTransport for Transport<W, R> / fn read_message :: `^if line.is_empty() { break; }` .. `^} let len = content_length`
-//@ harness: name=c08_dap_header prop=C08 unit=C08.dap_header mode=bounded bound="header lines of at most 17 bytes of valid UTF-8 (covers the 15-byte field name plus a multi-byte character across its end)" fn="Transport::read_message (header-line statement)" timeout=1200
+//@ harness: name=c08_dap_header prop=C08 unit=C08.dap_header mode=bounded bound="lines made of 13..15 printable ASCII bytes followed by one two-byte UTF-8 character, and `Content-Length:` followed by two ASCII bytes" fn="Transport::read_message (header-line statement)" timeout=1200
 //@ assume: BufRead::read_line delivers valid UTF-8 (it returns an error otherwise); the `?` conversion into anyhow::Error is replaced by returning the ParseIntError itself
 //@ notcovered: the body allocation `vec![0u8; len]` for a huge Content-Length (allocation failure is invisible to both tools), serde_json decoding, framing over several reads
 //
@@ -14,17 +14,42 @@ fn header_line(line: &str) -> Result<Option<usize>, core::num::ParseIntError> {
     Ok(content_length)
 }
 
+/// ASCII prefix of `k` bytes followed by one two-byte UTF-8 character: valid UTF-8 by construction,
+/// with a character boundary missing at byte k+1
+fn check_multibyte_at(k: usize) {
+    let ascii: [u8; 16] = kani::any();
+    let lead: u8 = kani::any();
+    let cont: u8 = kani::any();
+    kani::assume(lead >= 0xC2 && lead <= 0xDF && cont >= 0x80 && cont <= 0xBF);
+    let mut buf = [b'x'; 18];
+    let mut i = 0;
+    while i < k {
+        kani::assume(ascii[i] >= 0x20 && ascii[i] < 0x7f);
+        buf[i] = ascii[i];
+        i += 1;
+    }
+    buf[k] = lead;
+    buf[k + 1] = cont;
+    let s = unsafe { core::str::from_utf8_unchecked(&buf[..k + 2]) };
+    let r = header_line(s);
+    core::mem::forget(r);
+}
+
 #[kani::proof]
 #[kani::unwind(20)]
 fn c08_dap_header() {
-    let bytes: [u8; 17] = kani::any();
-    let len: usize = kani::any();
-    kani::assume(len >= 1 && len <= 17);
-    let s = match core::str::from_utf8(&bytes[..len]) {
-        Ok(s) => s,
-        Err(_) => { kani::assume(false); "" }
-    };
+    // a multi-byte character straddling each byte offset around the 15-byte field name
+    check_multibyte_at(13);
+    check_multibyte_at(14);
+    check_multibyte_at(15);
+    // the field itself with a short symbolic value
+    let v: [u8; 2] = kani::any();
+    let mut buf = *b"Content-Length:xx";
+    buf[15] = v[0];
+    buf[16] = v[1];
+    kani::assume(v[0] < 0x80 && v[1] < 0x80);
+    let s = unsafe { core::str::from_utf8_unchecked(&buf[..]) };
     let r = header_line(s);
-    kani::cover!(r.is_ok(), "C08.dap_header.cover a header line is accepted");
+    kani::cover!(matches!(r, Ok(Some(_))), "C08.dap_header.cover a length is parsed");
     core::mem::forget(r);
 }
